@@ -37,6 +37,14 @@ func (e *Enc) allocRef(st *State) string {
 	return app("obj", k)
 }
 
+// calleeWatermark: ids of objects allocated inside callees (and by unknown code) lie in (alloc0+10^9, cw].
+func (e *Enc) calleeWatermark(st *State) string {
+	if t, ok := st.m["G|cw"]; ok {
+		return t
+	}
+	return "(+ |alloc!0| 1000000000)"
+}
+
 func (e *Enc) watermark(st *State) string {
 	if t, ok := st.m["G|wm"]; ok {
 		return t
@@ -48,12 +56,13 @@ func (e *Enc) watermark(st *State) string {
 // allocated before entry, by this path so far, or inside a callee (its own id region).
 func (e *Enc) existing(st *State, v *Val) {
 	wm := e.watermark(st)
+	cw := e.calleeWatermark(st)
 	for k, l := range leaves(v.typ) {
 		if l.sort != "Ref" || k >= len(v.c) {
 			continue
 		}
 		for _, r := range []string{v.c[k], owner(v.c[k]), owner(owner(v.c[k]))} {
-			e.assumeHere(fmt.Sprintf("(=> ((_ is obj) %s) (or (<= (oid %s) %s) (> (oid %s) (+ |alloc!0| 1000000000))))", r, r, wm, r))
+			e.assumeHere(fmt.Sprintf("(=> ((_ is obj) %s) (or (<= (oid %s) %s) (and (> (oid %s) (+ |alloc!0| 1000000000)) (<= (oid %s) %s))))", r, r, wm, r, r, cw))
 		}
 	}
 }
